@@ -56,6 +56,13 @@ TICK = 1_000_000_000  # one tick = 1 s: worker delays are float(h) seconds, exac
 STORM = 120  # deliveries at one instant; legitimate runs stay below 60 (measured, see evidence)
 MAX_EVENTS = 6000
 
+
+
+def tk(t_ns):
+    """nanoseconds -> '<ticks>t' (fractions only appear with the pool's poll interval)."""
+    return f"{t_ns / TICK:g}t"
+
+
 IDLE, WAIT, HOLD, DONE, TIMEOUT, FAILED, CWAIT = "idle", "wait", "hold", "done", "timeout", "failed", "cwait"
 
 
@@ -141,8 +148,8 @@ class World:
     def now(self):
         return self.clock_ent.now.nanoseconds
 
-    def flag(self, clause, shape, desc):
-        self.viol.setdefault((clause, shape), desc)
+    def flag(self, clause, shape, desc, component=None):
+        self.viol.setdefault((component or self.ad.name, clause, shape), desc)
 
     def tie_shape(self, ws=None):
         cands = [ws] if ws is not None else [w for w in self.ws if w.t_req is not None]
@@ -171,7 +178,7 @@ class World:
         ad.settle(self, now)
         if ws.grants >= ws.rounds and ws.state != CWAIT:
             self.flag("granted-twice", self.tie_shape(ws),
-                      f"{ws.name} was granted again at {now // TICK}t although it requested once")
+                      f"{ws.name} was granted again at {tk(now)} although it requested once")
         re_entry = ws.state == CWAIT
         ws.grants += 0 if re_entry else 1
         # fifo: ws overtakes an earlier blocked acquirer that is still waiting
@@ -180,8 +187,8 @@ class World:
                 if (a is not ws and a.state == WAIT and a.blocked and a.s_req < ws.s_req
                         and ad.order_key(a) < ad.order_key(ws) and not ad.expired(a, now)):
                     self.flag("fifo", self.tie_shape(ws),
-                              f"blocked {ws.name} (requested at {ws.t_req // TICK}t) was granted at {now // TICK}t "
-                              f"before earlier blocked {a.name} (requested at {a.t_req // TICK}t)")
+                              f"blocked {ws.name} (requested at {tk(ws.t_req)}) was granted at {tk(now)} "
+                              f"before earlier blocked {a.name} (requested at {tk(a.t_req)})")
                     break
         ws.state = HOLD
         ws.t_grant = now
@@ -193,7 +200,7 @@ class World:
         holders = [w for w in self.ws if w.state == HOLD]
         if not ad.admissible(holders):
             self.flag("over-admit", ad.admit_shape(self, ws),
-                      f"at {now // TICK}t {ws.name} was granted while "
+                      f"at {tk(now)} {ws.name} was granted while "
                       f"{[(w.name, w.kind, w.amt) for w in holders if w is not ws]} still held: exceeds {ad.limit_text()}")
 
     def rel(self, ws):
@@ -243,7 +250,7 @@ class World:
             w.prev = w.state
         for clause, desc in ad.sample(self):
             self.flag(clause, ad.admit_shape(self, None) if clause == "over-admit" else self.tie_shape(),
-                      f"after delivery #{self.deliveries} at {t // TICK}t: {desc}")
+                      f"after delivery #{self.deliveries} at {tk(t)}: {desc}")
 
     def on_time(self, new_time):
         """Clock advance: the state is the final state of the previous instant."""
@@ -256,26 +263,27 @@ class World:
                     w.blocked = True
                     self.contended = True
         for clause, desc in ad.at_instant_end(self):
-            self.flag(clause, self.tie_shape(), f"at the end of instant {prev_t // TICK}t: {desc}")
+            self.flag(clause, self.tie_shape(), f"at the end of instant {tk(prev_t)}: {desc}")
         waiting = [w for w in self.ws if w.state == WAIT and w.blocked and not ad.expired(w, prev_t)]
         if waiting and ad.ordered:
             head = min(waiting, key=ad.order_key)
             if ad.admissible(self.occupying() + [head]):
                 self.flag("grant-late", ad.late_shape(self, head),
-                          f"at the end of instant {prev_t // TICK}t blocked {head.name} ({head.kind}, amount {head.amt}, "
-                          f"requested at {head.t_req // TICK}t) is first in line and fits next to holders "
+                          f"at the end of instant {tk(prev_t)} blocked {head.name} ({head.kind}, amount {head.amt}, "
+                          f"requested at {tk(head.t_req)}) is first in line and fits next to holders "
                           f"{[(w.name, w.kind, w.amt) for w in self.occupying()]} ({ad.limit_text()}) "
-                          f"but has not been granted; the clock moves on to {new_time.nanoseconds // TICK}t")
+                          f"but has not been granted; the clock moves on to {tk(new_time.nanoseconds)}")
 
     def finish(self, res):
         ad = self.ad
         self.outcome = res["outcome"]
         if res["outcome"] == "storm":
             self.contended = True
-            self.flag("frozen-clock", ad.storm_shape(self),
-                      f"more than {STORM} deliveries at instant {res['storm_at'] // TICK}t while "
+            comp, shape = ad.storm_shape(self)
+            self.flag("frozen-clock", shape,
+                      f"more than {STORM} deliveries at instant {tk(res['storm_at'])} while "
                       f"{[w.name for w in self.ws if w.state in (WAIT, CWAIT)]} wait: the clock never reaches the release "
-                      f"(event types {res.get('storm_types')})")
+                      f"(event types {res.get('storm_types')})", component=comp)
             return
         spinners = [w for w in self.ws if w.spins]
         if spinners:
@@ -290,9 +298,9 @@ class World:
         starving = ad.starved(self, left)
         if starving:
             w = starving[0]
-            self.flag("starved", self.tie_shape(w),
-                      f"run ended at {self.cur_t // TICK}t, every holder released, but {w.name} "
-                      f"(requested at {w.t_req // TICK}t) was never served")
+            self.flag("starved", ad.starved_shape(self, w),
+                      f"run ended at {tk(self.cur_t)}, every holder released, but {w.name} "
+                      f"(requested at {tk(w.t_req)}) was never served")
         for clause, desc in ad.final(self):
             self.flag(clause, self.tie_shape(), f"at quiescence: {desc}")
 
@@ -376,8 +384,12 @@ class Adapter:
     def starved(self, W, left):
         return left
 
+    def starved_shape(self, W, w):
+        return W.tie_shape(w)
+
     def storm_shape(self, W):
-        return "contended-acquire"
+        """(component, shape) of a frozen-clock storm."""
+        return self.name, "contended-acquire"
 
     def spin_shape(self, W):
         return "poll-while-blocked"
@@ -607,14 +619,10 @@ class RWLockAd(Adapter):
         return ()
 
     def storm_shape(self, W):
+        # one shape per wait loop of the lock: the first blocked acquirer is a reader or a writer
         waiting = [w for w in W.ws if w.state == WAIT and w.blocked]
-        holders = W.occupying()
-        a = "reader" if (waiting and min(waiting, key=lambda w: w.s_req).kind == "r") else "writer"
-        if not holders:
-            b = "nobody"
-        else:
-            b = "writer" if any(h.kind in ("w", "tw") for h in holders) else "reader"
-        return f"{a}-behind-{b}"
+        rd = bool(waiting) and min(waiting, key=lambda w: w.s_req).kind == "r"
+        return self.name, "blocked-reader" if rd else "blocked-writer"
 
 
 class BarrierAd(Adapter):
@@ -656,7 +664,7 @@ class BarrierAd(Adapter):
             W.grant(ws, rnd)
             if self.passes > (self.arrivals // p) * p:
                 W.flag("over-admit", W.tie_shape(ws),
-                       f"{ws.name} passed the barrier at {W.now() // TICK}t as pass #{self.passes} although only "
+                       f"{ws.name} passed the barrier at {tk(W.now())} as pass #{self.passes} although only "
                        f"{self.arrivals} parties have arrived (parties={p})")
             W.rel(ws)
             ws.state = DONE
@@ -687,7 +695,7 @@ class BarrierAd(Adapter):
         return left if self.passes < want else []
 
     def storm_shape(self, W):
-        return "waiting-for-parties"
+        return self.name, "waiting-for-parties"
 
 
 class ConditionAd(Adapter):
@@ -777,12 +785,11 @@ class ConditionAd(Adapter):
         return ()
 
     def storm_shape(self, W):
-        n = pub(self.prim, "waiters", 0)
-        if n:
-            return "wait-for-notify"
-        if any(w.state == CWAIT for w in W.ws):
-            return "reacquire-after-notify"
-        return "mutex-contended"
+        if pub(self.prim, "waiters", 0):
+            return self.name, "wait-for-notify"
+        # nobody is queued on the condition: the spinning process sits in Mutex.acquire
+        # (a plain contended acquire, or wait()'s re-acquisition after the notify)
+        return "Mutex", "contended-acquire"
 
     def spin_shape(self, W):
         return "poll-while-waiting"
@@ -836,12 +843,12 @@ class PoolAd(Adapter):
         return evs
 
     def admit_shape(self, W, ws):
-        if self.lat > 0:
-            for a in W.ws:
-                for b in W.ws:
-                    if a is not b and a.t_req is not None and b.t_req is not None and a.blocked is False \
-                            and a.t_req <= b.t_req < a.t_req + self.lat * TICK:
-                        return "arrival-during-setup"
+        # some worker requested while another one's connection set-up was in progress
+        for a in W.ws:
+            if a.blocked is False and a.s_req is not None:
+                end = a.s_grant if a.s_grant is not None else len(W.log)
+                if any(o is not a and o.s_req is not None and a.s_req < o.s_req < end for o in W.ws):
+                    return "arrival-during-setup"
         return W.tie_shape(ws)
 
     def sample(self, W):
@@ -875,7 +882,12 @@ class PoolAd(Adapter):
         return ()
 
     def late_shape(self, W, head):
-        return "poll-lag" if head.spins else W.tie_shape(head)
+        # the pool's own counter says the hand-off already happened, yet acquire() has not returned
+        nblocked = sum(1 for w in W.ws if w.state == WAIT and w.blocked)
+        pend = pub(self.prim, "pending_requests")
+        if pend is not None and pend < nblocked:
+            return "handed-off-but-acquire-not-returned"
+        return W.tie_shape(head)
 
 
 class _Sink(Entity):
@@ -1057,6 +1069,16 @@ class ThreadPoolAd(Adapter):
             return [("conservation", f"no task in service but active_workers={act} (leak)")]
         return ()
 
+    def late_shape(self, W, head):
+        if pub(self.prim, "queued_tasks", 0) > 0 and pub(self.prim, "idle_workers", 0) > 0:
+            return "queued-while-worker-idle"
+        return W.tie_shape(head)
+
+    def starved_shape(self, W, w):
+        if pub(self.prim, "queued_tasks", 0) == 0:
+            return "dequeued-but-never-started"
+        return "left-in-queue"
+
 
 class PreemptAd(Adapter):
     name = "PreemptibleResource"
@@ -1165,14 +1187,14 @@ def run_case(prim, cfg, specs):
         res = run_guarded(sim, max_events=MAX_EVENTS, storm=STORM, on_event=W.on_event)
     except Exception as e:  # an exception escaping the library in a legitimate interleaving
         W.outcome = "crash"
-        W.flag("crash", type(e).__name__, f"{type(e).__name__}: {e} (escaped the simulation at {W.cur_t // TICK}t)")
+        W.flag("crash", type(e).__name__, f"{type(e).__name__}: {e} (escaped the simulation at {tk(W.cur_t)})")
         return W
     W.finish(res)
     return W
 
 
 def fingerprints(W):
-    return [(f"{W.ad.name}/{clause}/{shape}", desc) for (clause, shape), desc in W.viol.items()]
+    return [(f"{comp}/{clause}/{shape}", desc) for (comp, clause, shape), desc in W.viol.items()]
 
 
 # ---------------------------------------------------------------------------
@@ -1183,13 +1205,22 @@ def worker_alphabet(fields):
     return [tuple(x) for x in itertools.product(*fields)]
 
 
+def alphabets(fields, n):
+    """Per-position alphabets: ``fields`` is one field list (same alphabet for every worker) or
+    {"per_worker": [fields0, ...]} (worker i draws from fields_i)."""
+    if isinstance(fields, dict):
+        return [worker_alphabet(f) for f in fields["per_worker"]]
+    a = worker_alphabet(fields)
+    return [a] * n
+
+
 def _work(job):
     prim, cfg, n, first_specs, fields = job
-    alpha = worker_alphabet(fields)
+    alphas = alphabets(fields, n)
     st = {"exec": 0, "trans": 0, "nontriv": 0, "outcomes": set(), "viol": {}, "samples": [],
           "max_same": 0, "kinds": {}, "horizon": 0}
     for first in first_specs:
-        for rest in itertools.product(alpha, repeat=n - 1):
+        for rest in itertools.product(*alphas[1:]):
             specs = (first,) + rest
             W = run_case(prim, cfg, specs)
             st["exec"] += 1
@@ -1227,8 +1258,12 @@ def run_driver(run, name, prim, cfgs, plans, seed, spec_doc):
     for n, fields_fn in plans:
         for cfg in cfgs:
             fields = fields_fn(cfg) if callable(fields_fn) else fields_fn
-            alpha = worker_alphabet(fields)
-            nch = 1 if n == 1 or len(alpha) ** n < 400 else min(len(alpha), 48)
+            alphas = alphabets(fields, n)
+            alpha = alphas[0]
+            size = 1
+            for a_ in alphas:
+                size *= len(a_)
+            nch = 1 if n == 1 or size < 400 else min(len(alpha), 48)
             chunks = [alpha[i::nch] for i in range(nch)]
             group = [(prim, cfg, n, ch, fields) for ch in chunks if ch]
             jobs.append((n, rotate(group, seed)))
@@ -1253,6 +1288,11 @@ def run_driver(run, name, prim, cfgs, plans, seed, spec_doc):
         for fp, (desc, rep) in st["viol"].items():
             rep = dict(rep)
             rep["driver"] = name
+            if fp not in run.violations:
+                # same schedule, same verdict: re-execute the witness before reporting it
+                again = [f for f, _ in fingerprints(run_case(rep["prim"], rep["cfg"], rep["workers"]))]
+                if fp not in again:
+                    raise RuntimeError(f"C09 harness error: {fp} did not reproduce from its replay data {rep}")
             run.violation(fp, desc, rep)
         if len(d.samples) < 3:
             d.samples.extend(st["samples"])
@@ -1487,7 +1527,11 @@ def drivers(tier):
         return [OFFS, ["acq"], amounts(cfg["cap"]), HOLDS, [0], [0, 1, 2], [0, 1]]
 
     def pr_sharp4(cfg):  # four overlapping holders/waiters, three priority levels
-        return [[0, 1], ["acq"], amounts(cfg["cap"]), [2] if q else [1, 2], [0], [0, 1, 2], [0, 1]]
+        def f(offs):
+            return [offs, ["acq"], amounts(cfg["cap"]), [2], [0], [0, 1, 2], [0, 1]]
+        if q:  # two workers arrive at 0, two at 1 (every other parameter free)
+            return {"per_worker": [f([0]), f([0]), f([1]), f([1])]}
+        return f([0, 1])
 
     if q:
         plans = [(1, pr_small), (2, pr_full), (3, pr_small), (4, pr_sharp4)]
@@ -1517,6 +1561,8 @@ def main(tier, seed, only=None):
                            "(Resource: the returned future is unresolved; ThreadPool: not started within its arrival instant)",
                            "barging by a fresh arrival and ordering across different priorities are not judged",
                            "timeouts: a waiter whose configured wait time has elapsed is exempt from ordering/liveness clauses"])
+    if only:
+        run.notes.append(f"partial run (--only {sorted(only)}): evidence covers the listed drivers only")
     for name, prim, cfgs, plans in drivers(tier):
         if only and name not in only:
             continue
